@@ -35,7 +35,7 @@ def accepts(kind, s):
 
 class C12(Prop):
     id = "C12"
-    lean_modules = ["PkgProofs.Props.C12", "PkgProofs.Props.C12Scan"]
+    lean_modules = ["PkgProofs.Props.C12", "PkgProofs.Props.C12Scan", "PkgProofs.Props.C12Req"]
     generated = ["VersionRx", "SpecifierRx"]
     theorems = ["C12.version_classes_verified", "C12.specifier_classes_verified", "C12.translator_supported",
                 "C12.version_cert", *[f"C12.op{i}_cert" for i in range(8)], "C12.operators_are_pep440s",
@@ -48,7 +48,11 @@ class C12(Prop):
                 "RxK.Ctx.M_version_iff_spelling",
                 # the same for the specifier scanner S.parseSpec (used by C03/C04/C11)
                 "C12.parseSpec_accepts_iff_spec_rx", "C12.parseSpec_accepts_iff_source_regex",
-                "RxK.parse_iff", "RxK.Ctx.M_specifier_iff", "RxK.scanCore_iff"]
+                "RxK.parse_iff", "RxK.Ctx.M_specifier_iff", "RxK.scanCore_iff",
+                # last sentence of the statement: clauses inside a requirement string (corollaries of the C08 parser theorems)
+                "C12.specifier_clause_accepted_in_requirement", "C12.specifier_clause_accepted_in_parentheses",
+                "C12.requirement_members_are_specifier_clauses", "C12.rejected_clause_rejects_requirement",
+                "C08.Examples.specifier_rule_tied"]
     rule = ("strings = spelled versions / clauses from the grammar, token- and character-level damage with one "
             "representative per code-point class, and the shortest word distinguishing generated and spec regex if any; "
             "non-trivial = accepted by the implementation")
@@ -56,7 +60,12 @@ class C12(Prop):
                "look-behind elimination in the translator (specialisation per operator literal)"]
     partial = ["numeric components longer than the interpreter's int-from-string limit are in the language but cannot be "
                "constructed by CPython >= 3.11 (known finding)",
-               "'a clause is accepted inside a requirement iff Specifier accepts it' is checked by correspondence/laws, not proved"]
+               "'a clause is accepted inside a requirement iff Specifier accepts it': both directions are theorems of "
+               "PkgProofs/Props/C12Req.lean (specifier_clause_accepted_in_requirement / _in_parentheses: any accepted clause, any "
+               "white space, any name; requirement_members_are_specifier_clauses, rejected_clause_rejects_requirement: the pieces of "
+               "the clause text the parser collected); that the collected text is the substring of the source is proved for layouts "
+               "only (ReqLayout.parseSource_layout), for other texts it is the law clause_in_requirement_iff_specifier; excluded as in "
+               "C08.parse_render: an === text that is empty or holds a comma (finding F48/F05)"]
     budget = {"quick": (4000, 3000), "thorough": (600000, 400000)}
 
     def _strings(self, rng, n):
